@@ -70,7 +70,8 @@ Inductive label :=
 | LWaitRes (rid : nat) (flag : bool)
 | LDeq (rid : nat)
 | LRecv (kind : N) (arg : N)     (* 0 rpc-reply with message-id arg; 1 rpc-reply without; 2 notification arg;
-                                    3 other root tag with message-id arg; 4 other root tag without *)
+                                    3 other root tag with message-id arg; 4 other root tag without;
+                                    5 not XML (parse_root fails and the profile does not repair it) *)
 | LNqPut (n : N)
 | LTGet (id : N) (found : bool)
 | LEvSetReply (rid : nat)
@@ -193,6 +194,11 @@ Definition with_skipok (s : st) (x : bool) : st :=
      recv_notifs := recv_notifs s; taken := taken s; bcast := bcast s; eof_seen := eof_seen s; lst := lst s; skipok := x |}.
 
 Definition is_idle (p : wpc) : bool := match p with WIdle => true | _ => false end.
+(* exception classes that are TransportErrors: SessionCloseError, TransportError, NetconfFramingError *)
+Definition is_transport (e : exc) : bool := N.eqb e 1 || N.eqb e 5 || N.eqb e 6.
+(* Session.run: with the closing flag set, whatever interrupts the loop is reported as SessionCloseError *)
+Definition bcast_code (s_closing : bool) (e : exc) : exc :=
+  if s_closing && negb (is_transport e) then 1 else e.
 (* the worker holds the pending-table lock (RPCReplyListener._lock): from the lookup that found
    the request until the entry is deleted, and between values() and clear() in errback *)
 Definition holds_tlock (p : wpc) : bool :=
@@ -236,6 +242,7 @@ Definition step (s : st) (l : label) : option st :=
   | LRecv kind arg =>
       if is_idle (pc s) then
         if N.eqb kind 2 then Some (with_pc (with_rnot s (recv_notifs s ++ [arg])) (WNotif arg))
+        else if N.eqb kind 5 then Some s        (* payload whose root cannot be parsed: logged and dropped, no listener called *)
         else if negb (lst s) then (if N.leb kind 4 then Some s else None)    (* no reply listener yet: ignored *)
         else if N.eqb kind 0 then Some (with_pc s (WLookup arg))
         else if N.eqb kind 1 then Some (with_pc s (WRaise 2))
@@ -279,7 +286,8 @@ Definition step (s : st) (l : label) : option st :=
   | LRaise e => if is_idle (pc s) then Some (with_pc s (WRaise e)) else None
   | LErrBcast e =>
       match pc s with
-      | WRaise e' => if N.eqb e e' then Some (with_pc (with_skipok (with_bcast s (Some e)) (negb (lst s))) (WErrSnap e)) else None
+      | WRaise e' => if N.eqb e (bcast_code (closing s) e')
+                     then Some (with_pc (with_skipok (with_bcast s (Some e)) (negb (lst s))) (WErrSnap e)) else None
       | WIdle => if closing s && N.eqb e 1 then Some (with_pc (with_skipok (with_bcast s (Some e)) (negb (lst s))) (WErrSnap e)) else None   (* clean exit *)
       | _ => None
       end
